@@ -117,9 +117,15 @@ def _rand_case(rng, i):
     v = lambda *shape: np.array([rng.randint(-8, 8) for _ in range(int(np.prod(shape)))]).reshape(shape).tolist()
     F = v(nd) if sc in ("11", "12") else v(nf, nd) if sc in ("21", "22", "23") else v(nb, nf, nd)
     S = v(nd) if sc in ("11", "21") else v(ns, nd) if sc in ("12", "22", "32") else v(nb, ns, nd)
-    kind = rng.choice(["arr", "arr", "step"])
+    kind = rng.choice(["arr", "arr", "step", "nearly"])
     DX = 2
-    if kind == "arr":
+    if kind == "nearly":
+        # a nearly uniform axis (steps within half a percent of each other, as from a spectrometer's calibration
+        # polynomial), in units of 1/1024 so that every sample is exact in floating point
+        DX = 1024
+        xs = np.cumsum([rng.randint(1019, 1029) for _ in range(nd)]).tolist()
+        dom, p, q, trapz = xs, 1, 1, True
+    elif kind == "arr":
         xs = sorted(rng.sample(range(0, 40), nd))
         dom, p, q, trapz = xs, 1, 1, True
     else:
